@@ -1240,6 +1240,14 @@ stop_and_drop_with_http_err:
 		goto stop_and_drop_with_http_err;
 	}
 
+	/* Transfer codings are not decoded here: the coded body would be
+	 * parsed as the next request(s). Refuse for every method. */
+	if (0 == http_hdr_val_get(cli->req.hdr, cli->req.hdr_size,
+	    (const uint8_t*)"transfer-encoding", 17, &ptm, &tm)) {
+		cli->resp.status_code = 501; /* Not Implemented. */
+		goto stop_and_drop_with_http_err;
+	}
+
 	/* Request methods additional handling. */
 	switch (cli->req.line.method_code) {
 	default: /* UNKNOWN, PUT, DELETE, OPTIONS, NOTIFY...: body must not be parsed as next request. */
@@ -1262,7 +1270,21 @@ stop_and_drop_with_http_err:
 			goto stop_and_drop_with_http_err;
 		}
 handle_content_length:
-		cli->req.data_size = ustr2usize(ptm, tm);
+		/* 1*DIGIT that fits size_t, nothing else: lenient parse
+		 * (skip non digits, wrap) desync with other parsers. */
+		if (0 == tm) {
+			cli->resp.status_code = 400; /* Bad request. */
+			goto stop_and_drop_with_http_err;
+		}
+		for (i = 0, cli->req.data_size = 0; i < tm; i ++) {
+			if ('0' > ptm[i] || '9' < ptm[i] ||
+			    ((SIZE_MAX - (size_t)(ptm[i] - '0')) / 10) < cli->req.data_size) {
+				cli->resp.status_code = 400; /* Bad request. */
+				goto stop_and_drop_with_http_err;
+			}
+			cli->req.data_size = ((cli->req.data_size * 10) +
+			    (size_t)(ptm[i] - '0'));
+		}
 		cli->req.size += cli->req.data_size;
 		tm = (size_t)(buf->used - (size_t)(cli->req.data - buf->data)); /* Received data size. */
 		if (cli->req.data_size <= tm) /* All data received. */
